@@ -392,6 +392,11 @@ func (ex *Exec) evalAppend(e *ast.CallExpr) Value {
 			return ex.appendAbsCells(s, add, e)
 		}
 	}
+	return ex.appendConcrete(s, add, st.Elem(), e)
+}
+
+// appendConcrete appends cells to a slice with a concrete shape (in place when the capacity allows).
+func (ex *Exec) appendConcrete(s SliceV, add []Value, elem types.Type, e ast.Node) Value {
 	if len(add) == 0 {
 		return s
 	}
@@ -418,7 +423,7 @@ func (ex *Exec) evalAppend(e *ast.CallExpr) Value {
 		return SliceV{Obj: s.Obj, Off: s.Off, Len: need, Cap: s.Cap, Elem: s.Elem}
 	}
 	// reallocate (capacity growth policy is unspecified: new cap = need)
-	o := ex.st.newObj("append@"+ex.where(e), types.NewArray(st.Elem(), int64(need)))
+	o := ex.st.newObj("append@"+ex.where(e), types.NewArray(elem, int64(need)))
 	o.Cells = make([]Value, need)
 	for i := 0; i < s.Len; i++ {
 		o.Cells[i] = s.Obj.Cells[s.Off+i]
@@ -426,7 +431,7 @@ func (ex *Exec) evalAppend(e *ast.CallExpr) Value {
 	for i, v := range add {
 		o.Cells[s.Len+i] = v
 	}
-	return SliceV{Obj: o, Len: need, Cap: need, Elem: st.Elem()}
+	return SliceV{Obj: o, Len: need, Cap: need, Elem: elem}
 }
 
 func (ex *Exec) capTerm(s SliceV) *Term {
